@@ -20,10 +20,12 @@ Definition tCol (o : topts) (ncols : nat) (it : nat * tree) : tcol :=
 Definition tCols (o : topts) (t : tree) : list tcol :=
   map (tCol o (length (tL t))) (indexed 0 (tL t)).
 
-(* [[stale, capmin], opts, cols, avail] *)
+(* [[stale, capmin], opts, cols, avail]; the flexible-minimum variant follows the T3 fact regenerated
+   from /repo (gen/BoxChars.FLEXMIN_MEASURED), so the model is the as-found solver on rich as it is
+   and the repaired one once fixes/C07_ratio_column_minimum.diff is in *)
 Definition widths_of_desc (t : tree) : res (list Z) :=
   let o := tOpts (tNth t 1) in
-  table_widths (tB (tNth (tNth t 0) 0)) (tB (tNth (tNth t 0) 1)) o (tCols o (tNth t 2)) (tZ (tNth t 3)).
+  table_widths_x FLEXMIN_MEASURED (tB (tNth (tNth t 0) 0)) (tB (tNth (tNth t 0) 1)) o (tCols o (tNth t 2)) (tZ (tNth t 3)).
 
 Definition tBox (t : tree) : option boxc :=
   match tOpt tZ t with Some i => nth_box (Z.to_nat i) | None => None end.
@@ -59,6 +61,7 @@ Definition ops : list (string * (tree -> tree)) := [
                                 (tList tRow (tNth t 4))));
   ("box_chars", fun t => match tBox t with Some b => ofStr (box_chars b) | None => L [] end);
   ("leading_multiplied", fun _ => ofB LEADING_MULTIPLIED);
+  ("flexmin_measured", fun _ => ofB FLEXMIN_MEASURED);
   (* ---- spec-level checkers ---- *)
   ("spec.distribute_sum", fun t => ofB (distribute_sum_b (tZ (tNth t 0)) (tZs (tNth t 1))));
   ("spec.distribute_min", fun t => ofB (distribute_min_b (tZs (tNth t 0)) (tZs (tNth t 1))));
